@@ -380,6 +380,20 @@ fn run_generic<V: VringT<GM> + Clone + Send + Sync + 'static>(ctx: &mut Ctx, h: 
                             return Err(format!("{desc}: SET_MEM_TABLE of a sorted disjoint page-aligned table was refused"));
                         }
                         ctx.class("table_change_refused_log_too_small");
+                        // the refused update must leave the previous table fully intact, the memory the back end works on included
+                        {
+                            use vm_memory::{GuestAddressSpace, GuestMemory, GuestMemoryRegion};
+                            let mem = s.fx.be.st.lock().unwrap().mem.clone();
+                            if let Some(m) = mem {
+                                let mut got: Vec<(u64, u64)> = m.memory().iter().map(|r| (r.start_addr().0, r.len())).collect();
+                                got.sort();
+                                let mut want: Vec<(u64, u64)> = regions.iter().map(|r| (r.gpa, r.size)).collect();
+                                want.sort();
+                                if got != want {
+                                    return Err(format!("{desc}: the table change was refused (log window too small) but the back end's guest memory now has regions {got:x?}, the table in force is {want:x?}"));
+                                }
+                            }
+                        }
                         check_logs(ctx, &logs, &desc, f6_possible)?;
                         continue;
                     }
@@ -421,6 +435,20 @@ fn run_generic<V: VringT<GM> + Clone + Send + Sync + 'static>(ctx: &mut Ctx, h: 
                         return Err(format!("{desc}: ADD_MEM_REG of a disjoint page-aligned region was refused"));
                     }
                     ctx.class("table_change_refused_log_too_small");
+                    // the refused update must leave the previous table fully intact, the memory the back end works on included
+                    {
+                        use vm_memory::{GuestAddressSpace, GuestMemory, GuestMemoryRegion};
+                        let mem = s.fx.be.st.lock().unwrap().mem.clone();
+                        if let Some(m) = mem {
+                            let mut got: Vec<(u64, u64)> = m.memory().iter().map(|r| (r.start_addr().0, r.len())).collect();
+                            got.sort();
+                            let mut want: Vec<(u64, u64)> = regions.iter().map(|r| (r.gpa, r.size)).collect();
+                            want.sort();
+                            if got != want {
+                                return Err(format!("{desc}: the table change was refused (log window too small) but the back end's guest memory now has regions {got:x?}, the table in force is {want:x?}"));
+                            }
+                        }
+                    }
                     check_logs(ctx, &logs, &desc, f6_possible)?;
                     continue;
                 }
